@@ -14,6 +14,7 @@ import (
 	"fmt"
 	"os"
 	"strings"
+	"time"
 
 	. "verifharness/vhlib"
 
@@ -174,6 +175,7 @@ func (e *engine) planBoth(c *Case, store *Config, stream string) planOutcome {
 	}
 	if mf[0] != "OK" {
 		e.res.Disagree(stream+": model does not plan", input, showCalls(real.Calls), model)
+		out.oracleOnly = true
 		return out
 	}
 	want := encCalls(real.Calls)
@@ -547,7 +549,16 @@ func runProp(ctx *Ctx, prop string) *Result {
 		total += s.weight
 	}
 	n := ctx.N(700, 14000)
+	deadline := time.Now().Add(time.Duration(ctx.N(55, 960)) * time.Second)
 	for i := 0; i < n; i++ {
+		if len(res.Disagreements) >= 20 {
+			res.Notes = append(res.Notes, fmt.Sprintf("stopped after %d generated cases: 20 disagreements recorded", i))
+			break
+		}
+		if time.Now().After(deadline) {
+			res.Notes = append(res.Notes, fmt.Sprintf("time budget reached after %d of %d generated cases", i, n))
+			break
+		}
 		rng := ctx.Rng.Fork()
 		k := rng.Intn(total)
 		name := ""
